@@ -6,7 +6,7 @@ from .. import monitor, refs
 from ..core import Workload
 from ..env import ptn
 
-KINDS = ['real', 'complex', 'symmetric', 'zero-padded', 'single-entry', 'hermitian', 'integer-valued']
+KINDS = ['real', 'complex', 'symmetric', 'zero-padded', 'single-entry', 'hermitian', 'integer-valued', 'mixed-magnitude', 'lower-triangular-storage']
 
 
 def coeffs(rng, L, kind):
@@ -41,6 +41,18 @@ def coeffs(rng, L, kind):
             k, l = rng.choice(L, size=2, replace=False)
             v[i, j, k, l] = float(rng.choice([1.0, -2.5, 0.3]))
         return t, v
+    if kind == 'mixed-magnitude':
+        t, v = c(L, L), c(L, L, L, L)
+        t = t * rng.choice([1, 1e-9, 1e3], size=t.shape)
+        v = v * rng.choice([1, 1, 1e-9, 1e-13], size=v.shape)
+        return t, v
+    if kind == 'lower-triangular-storage':
+        # interaction stored only for i > j (and k > l): whole slices vint[i] vanish while the antisymmetrised tensor does not
+        t = rng.normal(size=(L, L))
+        v = rng.normal(size=(L, L, L, L))
+        ii = np.arange(L)
+        v = v * (ii[:, None, None, None] > ii[None, :, None, None]) * (ii[None, None, :, None] > ii[None, None, None, :] if rng.random() < 0.5 else 1)
+        return t, v
     if kind == 'integer-valued':
         return rng.integers(-2, 3, size=(L, L)), rng.integers(-2, 3, size=(L, L, L, L))
     raise ValueError(kind)
@@ -66,7 +78,7 @@ def check_build(ctx, spin, L, t, v, kind):
     tag = 'spinmol' if spin else 'mol'
     detail = {'spin': spin, 'L': L, 'kind': kind, 'tkin': t, 'vint': v}
     dim = (4 if spin else 2) ** L
-    sc = max(1.0, float(np.abs(t).max()), float(np.abs(v).max()))
+    sc = max(float(abs(R).max()) if R.nnz else 0.0, 1e-300) if kind == 'mixed-magnitude' else max(1.0, float(np.abs(t).max()), float(np.abs(v).max()))
     t0, v0 = np.array(t, copy=True), np.array(v, copy=True)
     mats = {}
     for opt in (True, False):
@@ -109,7 +121,7 @@ def spin_case(ctx, idx, rng):
     L = 1 + idx % lmax
     kind = KINDS[(idx // lmax) % len(KINDS)]
     t, v = coeffs(rng, L, kind)
-    if L == 6 and kind not in ('zero-padded', 'single-entry', 'real'):
+    if L == 6 and kind not in ('zero-padded', 'single-entry', 'real', 'lower-triangular-storage'):
         kind = 'real'
         t, v = coeffs(rng, L, kind)
     ctx.case(('spin', f'L{L}', kind), sample={'L': L, 'kind': kind, 'tkin': t}, info={'L': L, 'kind': kind, 'tkin': t, 'vint': v})
@@ -184,8 +196,8 @@ SPEC = {
                  'spinmol.matrix==second-quantised-formula[opt]', 'spinmol.matrix==second-quantised-formula[explicit]', 'spinmol.optimized==explicit',
                  'gauge.transforms-to-rotated-operator'],
     'workloads': [
-        Workload('spinless', spinless_case, quick=7 * 7 * 2, thorough=9 * 7 * 20),
-        Workload('spin', spin_case, quick=5 * 7, thorough=6 * 7 * 8),
+        Workload('spinless', spinless_case, quick=7 * 9 * 2, thorough=9 * 9 * 20),
+        Workload('spin', spin_case, quick=5 * 9, thorough=6 * 9 * 8),
         Workload('gauge', gauge_case, quick=70, thorough=1400),
     ],
     'shards': {'quick': 4, 'thorough': 16},
